@@ -911,6 +911,12 @@ def _src_items():
                  [("medium_wavevec", "R")], _ARR, {"self._scat_coeffs"},
                  {"miescatlib.cross_sections": ("cross_sections_src", 3)},
                  {"miescatlib.asymmetry_parameter": "asym_src"})),
+        dict(file=MIESCATLIB, qualname="scatcoeffs (an, bn)", name="scat_elem_src",
+             fn=lambda repo: pyarr.translate_elementwise(
+                 repo, MIESCATLIB, "scatcoeffs", "scat_elem_src",
+                 [("Dnmx", "C"), ("psi", "R"), ("xi", "C"), ("psishift", "R"), ("xishift", "C")], [("m", "C"), ("x", "R")], ["an", "bn"],
+                 ["m", "x", "nstop", "eps1", "eps2"], opaque={"Dnmx": 0, "psi": 1, "xi": 2, "psishift": 3, "xishift": 4},
+                 opaque_calls={"dn_1_down", "mie_specfuncs.riccati_psi_xi", "np.concatenate"}, len_exprs={"nstop + 1"})),
     ]
 
 
@@ -966,7 +972,9 @@ def run(ctx):
         "source tie: miescatlib.cross_sections, miescatlib.asymmetry_parameter (numpy vector code read elementwise) and "
         "Mie.raw_cross_sections, translated from the current source text on every run, are proved equal to the model's sums "
         "for every coefficient list; cabs = cext - cscat, cscat >= 0, cabs = 0 for real-form coefficients and the optical "
-        "theorem restated for the translated source")
+        "theorem restated for the translated source; the two formula lines of miescatlib.scatcoeffs (Bohren-Huffman 4.88), read "
+        "elementwise, are the model's bh_pair at every order for every value of D_n, psi_n, chi_n, hence the whole coefficient "
+        "list; 'real relative index => zero absorption for every order' restated through the translated formulas")
     ctx.trusted.append("translator harness/lib/pyarr.py (numpy elementwise arithmetic over equally long 1-D arrays and .sum() read "
                        "as list folds over R; float rounding ignored; input guards `if isinstance(..): raise` dropped)")
     timed("prove", ctx.prove)
